@@ -105,13 +105,15 @@ inductive Outbound.Slot (o : Outbound) : Outbound.Step → Prop
       (hpre : ∀ x ∈ pre, x.id ≠ id ∧ x.state.isInProgress = false)
       (hpost : ∀ x ∈ post, x.state.isInProgress = false)
       (hctl : ∀ e ∈ o.control, e.state = .write 0)
-      (hret : ∀ e ∈ o.retained, e.state.isInProgress = false) : Slot o (.release id rc st)
+      (hret : ∀ e ∈ o.retained, e.state.isInProgress = false)
+      (hsent : ∀ x ∈ pre, x.state = .sent) : Slot o (.release id rc st)
   | retained (pre : List RetainedPacket) (e : RetainedPacket) (post : List RetainedPacket)
       (hr : o.retained = pre ++ e :: post)
       (hpre : ∀ x ∈ pre, x.id ≠ e.id ∧ x.state.isInProgress = false)
       (hpost : ∀ x ∈ post, x.state.isInProgress = false)
       (hctl : ∀ e ∈ o.control, e.state = .write 0)
-      (hrel : ∀ e ∈ o.release, e.state.isInProgress = false) : Slot o (.retained e.id e.offset e.len e.state)
+      (hrel : ∀ e ∈ o.release, e.state.isInProgress = false)
+      (hsent : ∀ x ∈ pre, x.state = .sent) : Slot o (.retained e.id e.offset e.len e.state)
 
 /-- The bytes `perform_outbound_step` writes for a step: acknowledgements, PINGREQ and PUBREL are
 encoded afresh each time, a retained packet is read from the arena. -/
@@ -146,12 +148,12 @@ theorem Outbound.Slot.setWritten {o : Outbound} {step : Outbound.Step} (h : o.Sl
   | control a st rest hc hrest hrel hret =>
     refine Slot.control a _ rest ?_ hrest hrel hret
     simp [Outbound.setWritten, Outbound.Step.flushed, setControlWritten, hc, modifyFirst]
-  | release pre id rc st post hr hpre hpost hctl hret =>
-    refine Slot.release pre id rc _ post ?_ hpre hpost hctl hret
+  | release pre id rc st post hr hpre hpost hctl hret hsent =>
+    refine Slot.release pre id rc _ post ?_ hpre hpost hctl hret hsent
     simp only [Outbound.setWritten, Outbound.Step.flushed, setReleaseWritten, hr]
     rw [modifyFirst_hit _ _ pre _ post (fun x hx => by simp [(hpre x hx).1]) (by simp)]
-  | retained pre e post hr hpre hpost hctl hrel =>
-    refine Slot.retained pre { e with state := SendState.afterWrite wr len } post ?_ hpre hpost hctl hrel
+  | retained pre e post hr hpre hpost hctl hrel hsent =>
+    refine Slot.retained pre { e with state := SendState.afterWrite wr len } post ?_ hpre hpost hctl hrel hsent
     simp only [Outbound.setWritten, Outbound.Step.flushed, setRetainedWritten, hr]
     rw [modifyFirst_hit _ _ pre _ post (fun x hx => by simp [(hpre x hx).1]) (by simp)]
 
@@ -251,10 +253,10 @@ theorem Outbound.Slot.queueControl {o o' : Outbound} {a : ControlAction} {step :
     | control a' st rest hc hrest hrel hret =>
       refine Slot.control a' st (rest ++ [{ action := a, state := .write 0 }]) ?_ (happ rest hrest) hrel hret
       simp [hc]
-    | release pre id rc st post hr hpre hpost hctl hret =>
-      exact Slot.release pre id rc st post hr hpre hpost (happ _ hctl) hret
-    | retained pre e post hr hpre hpost hctl hrel =>
-      exact Slot.retained pre e post hr hpre hpost (happ _ hctl) hrel
+    | release pre id rc st post hr hpre hpost hctl hret hsent =>
+      exact Slot.release pre id rc st post hr hpre hpost (happ _ hctl) hret hsent
+    | retained pre e post hr hpre hpost hctl hrel hsent =>
+      exact Slot.retained pre e post hr hpre hpost (happ _ hctl) hrel hsent
 
 theorem queueControl_buf {o o' : Outbound} {a : ControlAction} (hq : o.queueControl a = some o') : o'.buf = o.buf := by
   unfold Outbound.queueControl at hq
@@ -338,20 +340,24 @@ theorem Outbound.Quiet.nextStep {o : Outbound} {step : Outbound.Step} (h : o.Qui
     have hfr := List.find?_some hf
     rw [matchesPriority_false, isFresh_iff] at hfr
     refine ⟨?_, hfr⟩
-    obtain ⟨_, pre, post, hl, _⟩ := List.find?_eq_some_iff_append.mp hf
+    obtain ⟨_, pre, post, hl, hnf⟩ := List.find?_eq_some_iff_append.mp hf
     have hne := nodup_pre_ne (fun (x : PendingRelease) => x.id) pre e post (by rw [← hl]; exact hnd.2.1)
     exact Slot.release pre e.id e.rc e.state post hl
       (fun x hx => ⟨hne x hx, h.release x (by rw [hl]; simp [hx])⟩)
       (fun x hx => h.release x (by rw [hl]; simp [hx])) h.control h.retained
+      (fun x hx => sent_of_neither _ (by have := hnf x hx; rw [matchesPriority_false] at this; simpa using this)
+        (h.release x (by rw [hl]; simp [hx])))
   · rw [hs] at hn; cases hn
     have hfr := List.find?_some hf
     rw [matchesPriority_false, isFresh_iff] at hfr
     refine ⟨?_, hfr⟩
-    obtain ⟨_, pre, post, hl, _⟩ := List.find?_eq_some_iff_append.mp hf
+    obtain ⟨_, pre, post, hl, hnf⟩ := List.find?_eq_some_iff_append.mp hf
     have hne := nodup_pre_ne (fun (x : RetainedPacket) => x.id) pre e post (by rw [← hl]; exact hnd.1)
     exact Slot.retained pre e post hl
       (fun x hx => ⟨hne x hx, h.retained x (by rw [hl]; simp [hx])⟩)
       (fun x hx => h.retained x (by rw [hl]; simp [hx])) h.control h.release
+      (fun x hx => sent_of_neither _ (by have := hnf x hx; rw [matchesPriority_false] at this; simpa using this)
+        (h.retained x (by rw [hl]; simp [hx])))
   · rw [hs] at hn; cases hn
 
 /-- Two descriptions of "the entry in progress" agree. -/
@@ -376,45 +382,48 @@ theorem Outbound.Quiet.not_slot {o : Outbound} {step : Outbound.Step} (h : o.Qui
 /-- What the queues say about the last, possibly incomplete, packet on the wire: `part` is the part of
 it that has been written. Either nothing is in progress (`part = []`), or one entry has been written
 completely and waits for its flush (`part = []`: the whole packet is on the wire), or exactly one
-entry is partially written and `part` is the `n + 1` bytes of it that have been accepted. -/
-inductive Outbound.OState (o : Outbound) : Bytes → Prop
-  | quiet (h : o.Quiet) : OState o []
-  | flushing (step : Outbound.Step) (hs : o.Slot step) (hst : step.state = .flush) : OState o []
+entry is partially written and `part` is the `n + 1` bytes of it that have been accepted. `ok` is
+whatever was checked about the packet when its first byte was offered (its size). -/
+inductive Outbound.OState (o : Outbound) (ok : Bytes → Prop) : Bytes → Prop
+  | quiet (h : o.Quiet) : OState o ok []
+  | flushing (step : Outbound.Step) (hs : o.Slot step) (hst : step.state = .flush) : OState o ok []
   | writing (step : Outbound.Step) (n : Nat) (bytes : Bytes) (hs : o.Slot step) (hst : step.state = .write (n + 1))
-      (hb : o.StepBytes step bytes) (hn : n + 1 < bytes.length) (hf : Framed bytes) : OState o (bytes.take (n + 1))
+      (hb : o.StepBytes step bytes) (hn : n + 1 < bytes.length) (hf : Framed bytes) (hok : ok bytes) :
+      OState o ok (bytes.take (n + 1))
 
-theorem Outbound.OState.queueControl {o o' : Outbound} {a : ControlAction} {part : Bytes} (h : o.OState part)
-    (hq : o.queueControl a = some o') : o'.OState part := by
+theorem Outbound.OState.queueControl {o o' : Outbound} {ok : Bytes → Prop} {a : ControlAction} {part : Bytes}
+    (h : o.OState ok part) (hq : o.queueControl a = some o') : o'.OState ok part := by
   cases h with
   | quiet h => exact .quiet (h.queueControl hq)
   | flushing step hs hst => exact .flushing step (hs.queueControl hq) hst
-  | writing step n bytes hs hst hb hn hf =>
-    exact .writing step n bytes (hs.queueControl hq) hst (StepBytes_congr hb (queueControl_buf hq)) hn hf
+  | writing step n bytes hs hst hb hn hf hok =>
+    exact .writing step n bytes (hs.queueControl hq) hst (StepBytes_congr hb (queueControl_buf hq)) hn hf hok
 
-theorem Outbound.OState.of_nextStep_none {o : Outbound} {part : Bytes} (h : o.OState part) (hn : o.nextStep = none) :
-    o.Quiet ∧ part = [] := by
+theorem Outbound.OState.of_nextStep_none {o : Outbound} {ok : Bytes → Prop} {part : Bytes} (h : o.OState ok part)
+    (hn : o.nextStep = none) : o.Quiet ∧ part = [] := by
   cases h with
   | quiet h => exact ⟨h, rfl⟩
   | flushing step hs hst =>
     have := hs.nextStep (by rw [hst]; rfl)
     rw [hn] at this; cases this
-  | writing step n bytes hs hst hb hn' hf =>
+  | writing step n bytes hs hst hb hn' hf hok =>
     have := hs.nextStep (by rw [hst]; rfl)
     rw [hn] at this; cases this
 
-theorem Outbound.OState.of_quiet {o : Outbound} {part : Bytes} (h : o.OState part) (hq : o.Quiet) : part = [] := by
+theorem Outbound.OState.of_quiet {o : Outbound} {ok : Bytes → Prop} {part : Bytes} (h : o.OState ok part) (hq : o.Quiet) :
+    part = [] := by
   cases h with
   | quiet h => rfl
   | flushing step hs hst => rfl
-  | writing step n bytes hs hst hb hn' hf => exact (hq.not_slot hs (by rw [hst]; rfl)).elim
+  | writing step n bytes hs hst hb hn' hf hok => exact (hq.not_slot hs (by rw [hst]; rfl)).elim
 
 /-- What the scheduler's answer means for the wire. -/
-theorem Outbound.OState.of_nextStep {o : Outbound} {part : Bytes} {step : Outbound.Step} (h : o.OState part) (hid : o.IdInv)
-    (hn : o.nextStep = some step) :
+theorem Outbound.OState.of_nextStep {o : Outbound} {ok : Bytes → Prop} {part : Bytes} {step : Outbound.Step}
+    (h : o.OState ok part) (hid : o.IdInv) (hn : o.nextStep = some step) :
     o.Slot step ∧
     ((step.state = .write 0 ∧ part = []) ∨ (step.state = .flush ∧ part = []) ∨
      (∃ n bytes, step.state = .write (n + 1) ∧ o.StepBytes step bytes ∧ n + 1 < bytes.length ∧ Framed bytes ∧
-        part = bytes.take (n + 1))) := by
+        ok bytes ∧ part = bytes.take (n + 1))) := by
   cases h with
   | quiet h =>
     obtain ⟨a, c⟩ := h.nextStep hid hn
@@ -423,19 +432,19 @@ theorem Outbound.OState.of_nextStep {o : Outbound} {part : Bytes} {step : Outbou
     have := hs.nextStep (by rw [hst]; rfl)
     rw [hn] at this; cases this
     exact ⟨hs, Or.inr (Or.inl ⟨hst, rfl⟩)⟩
-  | writing step' n bytes hs hst hb hn' hf =>
+  | writing step' n bytes hs hst hb hn' hf hok =>
     have := hs.nextStep (by rw [hst]; rfl)
     rw [hn] at this; cases this
-    exact ⟨hs, Or.inr (Or.inr ⟨n, bytes, hst, hb, hn', hf, rfl⟩)⟩
+    exact ⟨hs, Or.inr (Or.inr ⟨n, bytes, hst, hb, hn', hf, hok, rfl⟩)⟩
 
 /-- The part of the last packet that is on the wire is a prefix of a whole framed packet. -/
-theorem Outbound.OState.part_prefix {o : Outbound} {part : Bytes} (h : o.OState part) :
+theorem Outbound.OState.part_prefix {o : Outbound} {ok : Bytes → Prop} {part : Bytes} (h : o.OState ok part) :
     part = [] ∨ ∃ rest, Framed (part ++ rest) := by
   cases h with
   | quiet h => exact Or.inl rfl
   | flushing step hs hst => exact Or.inl rfl
-  | writing step n bytes hs hst hb hn hf => exact Or.inr ⟨bytes.drop (n + 1), by rw [List.take_append_drop]; exact hf⟩
-
+  | writing step n bytes hs hst hb hn hf hok =>
+    exact Or.inr ⟨bytes.drop (n + 1), by rw [List.take_append_drop]; exact hf⟩
 
 /-! ### Operations that leave the queues quiet -/
 
@@ -597,8 +606,8 @@ theorem Quiet_retain {s s3 : Session} {id off len : Nat} {isPub : Bool} (h : s.d
     have := Quiet_retainPacket h ho
     split <;> exact this
 
-theorem OState_queuePing {s s' : Session} {now : Nat} {part : Bytes} (hq : s.queuePing now = .ok s')
-    (h : s.data.outbound.OState part) : s'.data.outbound.OState part := by
+theorem OState_queuePing {s s' : Session} {ok : Bytes → Prop} {now : Nat} {part : Bytes} (hq : s.queuePing now = .ok s')
+    (h : s.data.outbound.OState ok part) : s'.data.outbound.OState ok part := by
   rcases Session.queuePing_ok hq with rfl | ⟨o, ho, rfl⟩
   · exact h
   · exact h.queueControl ho
